@@ -797,6 +797,28 @@ fn gen_nums(r: &mut Rng) -> Nums {
     }
 }
 
+/// T17 — element list and text content in one element (element list row + $text row)
+#[derive(Serialize, Deserialize, Debug, PartialEq, Clone)]
+#[serde(rename = "m_listtext")]
+pub struct ListText {
+    #[serde(rename = "@a_k")]
+    pub k: u8,
+    #[serde(default)]
+    pub t_item: Vec<String>,
+    #[serde(default)]
+    pub t_num: Vec<i32>,
+    #[serde(rename = "$text", default)]
+    pub t: String,
+}
+fn gen_listtext(r: &mut Rng) -> ListText {
+    ListText {
+        k: r.next() as u8,
+        t_item: (0..gen_len(r).min(4)).map(|_| gen_string(r, Pos::Text)).collect(),
+        t_num: (0..gen_len(r).min(3)).map(|_| r.next() as i32).collect(),
+        t: gen_string(r, Pos::Text),
+    }
+}
+
 // ---- shapes for overlapped lists (C20) ------------------------------------
 
 #[derive(Serialize, Deserialize, Debug, PartialEq, Clone, Default)]
@@ -962,6 +984,7 @@ pub fn family() -> Vec<TypeOps> {
         ops!(HasMap, "HasMap", gen = |r| HasMap { k: r.next() as u8, k_m: gen_map(r) }, rows = &["map:name-like-keys"]),
         ops!(Deep, "Deep", gen = gen_deep, rows = &["nested:lists-of-structs-with-lists"]),
         ops!(Nums, "Nums", gen = gen_nums, rows = &["numbers:extremes", "list:elements-number"]),
+        ops!(ListText, "ListText", gen = gen_listtext, rows = &["list:elements-followed-by-$text"]),
     ]
 }
 
